@@ -961,7 +961,7 @@ package flags
 //@   loop 3 invariant 1 <= pos && pos <= l - 1 && suffix == "-"
 //@   loop 3 decreases pos
 //@   at call strings.TrimSpace #2: 1 <= pos && pos < l && use(nwd_split, line, pos)
-//@   ensures[C17] nwd(r) == nwd(s)
+//@   ensures[C17,C16] nwd(r) == nwd(s)
 
 // ===================================================================
 // ini.go: reading
@@ -1043,8 +1043,33 @@ package flags
 // ===================================================================
 
 //@ assumed func (x *multiTag) Set(key string, value string)
-//@ assumed func (c *Command) groupByName(name string) (g *Group)
+// Section names: own groups first; then the first subcommand, in declaration
+// order, that answers for the name - "<sub>.<rest>" resolved inside sub
+// (groups and, recursively, subcommands of sub), or "<sub>" itself for sub's
+// own group.  This is what lets the sections the writer names by command path
+// ("[remote.add]") be found again (C12) and entries reach their option (C13).
+//@ assumed func (g *Group) groupByName(name string) (r *Group)
 //@   pure
+//@ assumed func subRest(name string, sub *Command) (r string)
+//@   pure
+//@ axiom manual subRest_def: forall name string, sub *Command :: hasPrefix(name, sub.Name + ".") ==> subRest(name, sub) == name[len(sub.Name + "."):]
+//@ assumed func subPfx(name string, sub *Command) (r bool)
+//@   pure
+//@ axiom manual subPfx_def: forall name string, sub *Command :: subPfx(name, sub) == hasPrefix(name, sub.Name + ".")
+//@ pure func claimsSub(name string, sub *Command) bool = ite(subPfx(name, sub), sub.groupByName(subRest(name, sub)) != nil, name == sub.Name)
+//@ pure func claimedSub(name string, sub *Command) *Group = ite(subPfx(name, sub), sub.groupByName(subRest(name, sub)), sub.Group)
+//@ pure func claims(c *Command, name string, i int) bool = claimsSub(name, c.commands[i])
+//@ pure func claimed(c *Command, name string, i int) *Group = claimedSub(name, c.commands[i])
+//@ func (c *Command) groupByName(name string) (g *Group)
+//@   props C12 C13 C04
+//@   pure
+//@   requires c != nil
+//@   loop 1 invariant forall(i, 0, idx_1, !claims(c, name, i))
+//@   at call strings.HasPrefix #1: use(subPfx_def, name, subc) && use(subRest_def, name, subc)
+//@   ensures[C12,C13] c.Group.groupByName(name) != nil ==> g == c.Group.groupByName(name)
+//@   ensures[C12,C13] c.Group.groupByName(name) == nil ==> forall(j, 0, len(c.commands), claims(c, name, j) && forall(i, 0, j, !claims(c, name, i)) ==> g == claimed(c, name, j))
+//@   ensures[C12,C13] c.Group.groupByName(name) == nil && forall(i, 0, len(c.commands), !claims(c, name, i)) ==> g == nil
+//@   assigns nothing
 
 //@ func (i *IniParser) matchingGroups(name string) (r []*Group)
 //@   props C13 C14 C04
